@@ -12,7 +12,8 @@ identity per agent; `old + next` for every object reconstructed by a copy).
   set <a> <c>                           a.cell = c      → ok | err NoAgent | err NoCell | err Foreign | err Full
   unset <a> | remove <a>                a.cell = None | a.remove()                  → ok | err NoAgent
   copy <s> deepcopy|pickle              the copy is space <s + next>                → ok <s'> fresh | err NoSpace
-  look <s>                              c:idx:cap:listed agents:connection targets:generator:class … | a:unique_id:cell … | empty cells …
+  look <s>                              c:idx:cap:listed agents:connection targets:generator:class … | a:unique_id:cell … | empty cells … | a …
+                                        last part: the agents as the space's cell collection lists them (`space.all_cells.agents`)
                                         generator / class: the pair whose generator / cell class the cell uses (class `-`: plain Cell)
 -/
 open Mesa.CopyOcc
@@ -42,6 +43,7 @@ def showLook (v : List (Nat × Nat × Option Nat × List Nat × List Nat × Nat 
       s!"{c}:{i}:{showCap cap}:{dots ags}:{dots conn}:{rnd}:{showCap kl}")
     ++ " | " ++ " ".intercalate (v.2.map fun (a, u, c) => s!"{a}:{u}:{showCap c}")
     ++ " | " ++ " ".intercalate (e.map toString)
+    ++ " | " ++ " ".intercalate ((v.1.flatMap fun (_, _, _, ags, _, _, _) => ags).map toString)
 
 def showRes : Res → String
   | .ok => "ok"
